@@ -539,27 +539,37 @@ class Interp:
             raise Raised(v, st)
         elif isinstance(st, ast.Try):
             try:
-                self.exec_block(st.body, env)
-            except Raised as r:
-                for h in st.handlers:
-                    if self.exc_matches(r.exc, h.type, env):
-                        if h.name:
-                            env.set(h.name, r.exc)
-                        env.set("__current_exc__", r.exc)
-                        try:
+                try:
+                    self.exec_block(st.body, env)
+                except Raised as r:
+                    for h in st.handlers:
+                        if self.exc_matches(r.exc, h.type, env):
+                            if h.name:
+                                env.set(h.name, r.exc)
+                            env.set("__current_exc__", r.exc)
                             self.exec_block(h.body, env)
-                        finally:
-                            if st.finalbody:
-                                self.exec_block(st.finalbody, env)
-                        break
+                            break
+                    else:
+                        raise
                 else:
-                    if st.finalbody:
-                        self.exec_block(st.finalbody, env)
-                    raise
-            else:
-                self.exec_block(st.orelse, env)
+                    self.exec_block(st.orelse, env)
+            except (Raised, _Return, _Break, _Continue):
                 if st.finalbody:
                     self.exec_block(st.finalbody, env)
+                raise
+            else:
+                if st.finalbody:
+                    self.exec_block(st.finalbody, env)
+        elif isinstance(st, ast.Match):
+            subj = self.eval(st.subject, env)
+            for case in st.cases:
+                binds: dict = {}
+                if self.match_pattern(case.pattern, subj, env, binds):
+                    for k, v in binds.items():
+                        env.set(k, v)
+                    if case.guard is None or self.truth(self.eval(case.guard, env), case.guard):
+                        self.exec_block(case.body, env)
+                        break
         elif isinstance(st, (ast.FunctionDef, ast.AsyncFunctionDef)):
             rel = env.lookup("__relpath__")[1]
             cls = env.lookup("__cls__")[1]
@@ -594,6 +604,69 @@ class Interp:
             raise Unsupported(f"statement {type(st).__name__}")
         else:
             raise Unsupported(f"statement {type(st).__name__}")
+
+    def match_pattern(self, p, subj, env: Env, binds: dict) -> bool:
+        """Structural pattern matching (PEP 634) for value, singleton, sequence, class, capture, wildcard and or-patterns."""
+        if isinstance(p, ast.MatchValue):
+            return self.py_eq(subj, self.eval(p.value, env), p)
+        if isinstance(p, ast.MatchSingleton):
+            return subj is p.value
+        if isinstance(p, ast.MatchAs):
+            if p.pattern is not None and not self.match_pattern(p.pattern, subj, env, binds):
+                return False
+            if p.name is not None:
+                binds[p.name] = subj
+            return True
+        if isinstance(p, ast.MatchOr):
+            for alt in p.patterns:
+                b2: dict = {}
+                if self.match_pattern(alt, subj, env, b2):
+                    binds.update(b2)
+                    return True
+            return False
+        if isinstance(p, ast.MatchSequence):
+            if isinstance(subj, (list, tuple)):
+                seq = list(subj)
+            else:
+                return False            # str / bytes / dict / model objects are not sequences for matching
+            stars = [i for i, x in enumerate(p.patterns) if isinstance(x, ast.MatchStar)]
+            if not stars:
+                if len(seq) != len(p.patterns):
+                    return False
+                return all(self.match_pattern(x, v, env, binds) for x, v in zip(p.patterns, seq))
+            i = stars[0]
+            after = len(p.patterns) - i - 1
+            if len(seq) < len(p.patterns) - 1:
+                return False
+            for x, v in zip(p.patterns[:i], seq[:i]):
+                if not self.match_pattern(x, v, env, binds):
+                    return False
+            if p.patterns[i].name is not None:
+                binds[p.patterns[i].name] = seq[i:len(seq) - after]
+            for x, v in zip(p.patterns[i + 1:], seq[len(seq) - after:] if after else []):
+                if not self.match_pattern(x, v, env, binds):
+                    return False
+            return True
+        if isinstance(p, ast.MatchClass):
+            cls = self.eval(p.cls, env)
+            if not self.isinstance(subj, cls, p):
+                return False
+            if p.patterns:
+                if len(p.patterns) == 1 and isinstance(cls, type) and cls in (int, float, str, bytes, bool, list, tuple, dict,
+                                                                            set, frozenset, bytearray):
+                    if not self.match_pattern(p.patterns[0], subj, env, binds):
+                        return False
+                else:
+                    raise Unsupported("positional sub-patterns of a class pattern (__match_args__)")
+            for attr, sub in zip(p.kwd_attrs, p.kwd_patterns):
+                try:
+                    v = self.getattr(subj, attr, p, env)
+                except Raised:
+                    return False
+                if not self.match_pattern(sub, v, env, binds):
+                    return False
+            return True
+        raise Unsupported(f"match pattern {type(p).__name__}")
 
     def assign(self, t: ast.AST, v, env: Env):
         if isinstance(t, ast.Name):
@@ -1348,8 +1421,8 @@ def _local_names(fn) -> frozenset:
             names.add(n.id)
         elif isinstance(n, ast.ExceptHandler) and n.name:
             names.add(n.name)
-    for sub in ast.iter_child_nodes(fn):
-        pass
+        elif isinstance(n, (ast.MatchAs, ast.MatchStar)) and n.name:
+            names.add(n.name)
     # names declared global/nonlocal are not locals
     for n in _walk_own(fn):
         if isinstance(n, (ast.Global, ast.Nonlocal)):
